@@ -63,6 +63,18 @@ Proof.
   destruct nl; [right; apply (Hl eq_refl t0 _ infos Hp)|left; reflexivity].
 Qed.
 
+Lemma batch_load_ranges_pd fuel t c rs count nl regs c' t' :
+  rs <> [] -> (nl = true -> pd_leaders pd) ->
+  batch_load_ranges pd budget fuel t c rs count nl = (Ok regs, c', t') ->
+  exists t0 infos, pd t0 (ReqBatch rs count) = PdMany infos /\ infos <> [] /\ regions_have_gap rs infos count = false /\ regs = map new_region infos.
+Proof.
+  intros Hne Hl. unfold batch_load_ranges. destruct rs as [|r0 rs']; [congruence|]. destruct count as [|n]; [discriminate|].
+  destruct (scan_loop pd budget fuel t (ReqBatch (r0 :: rs') (S n)) (r0 :: rs') (S n) nl) as [[regs0|e] t1] eqn:Es; [|discriminate].
+  intros H; injection H as <- _ _. destruct (scan_loop_ok _ _ _ _ _ _ _ _ Es) as [t0 [infos [Hp [Hn [Hg [Hh _]]]]]].
+  exists t0, infos. split; [exact Hp|]. split; [exact Hn|]. split; [exact Hg|]. apply (handle_infos_all nl); [|exact Hh].
+  destruct nl; [right; apply (Hl eq_refl t0 _ infos Hp)|left; reflexivity].
+Qed.
+
 Lemma ranges_after_key_length rs split : (length (ranges_after_key rs split) <= length rs)%nat.
 Proof.
   unfold ranges_after_key. destruct rs as [|r0 t] eqn:E; [cbn; lia|]. rewrite <- E.
@@ -104,6 +116,114 @@ Proof.
       assert (Hend : r_end lastr = d_end (last infos (mkDesc 0 [] [] 0 0 [] (0, 0) None))).
       { rewrite <- Hlast, Hregs. apply last_map_new. exact Hn. }
       apply H3. apply ranges_after_key_keeps; [exact Hwf|rewrite Hend; exact Hc1|exact Hk|rewrite Hend; exact Hc2].
+Qed.
+
+(* ---- any number of ranges: the chunks of 16*batch_limit ranges ---- *)
+Definition last_end (rs : list range) : bytes := snd (last rs ([], [])).
+(* PD answers a batch scan only with regions that overlap the ranges asked: none starts at or after the end of the last one *)
+Definition pd_no_junk (pd : nat -> pd_req -> pd_ans) : Prop :=
+  forall t rs limit infos, pd t (ReqBatch rs limit) = PdMany infos ->
+    forall d, In d infos -> last_end rs = [] \/ lex_ltb (d_start d) (last_end rs) = true.
+
+Lemma wf_prefix : forall a b, ranges_wf (a ++ b) -> ranges_wf a.
+Proof.
+  induction a as [|[s e] t IH]; intros b H; [exact I|]. cbn [app ranges_wf] in *. destruct H as [H1 [H2 H3]].
+  split; [exact H1|]. split; [|apply (IH b); exact H3]. destruct t as [|[s1 e1] t']; [exact I|exact H2].
+Qed.
+Lemma wf_split_order : forall a b, ranges_wf (a ++ b) -> a <> [] ->
+  forall s' e', In (s', e') b -> last_end a <> [] /\ lex_leb (last_end a) s' = true.
+Proof.
+  induction a as [|[s e] t IH]; intros b H Hne s' e' Hin; [congruence|]. destruct t as [|r2 t'].
+  - unfold last_end. cbn [last snd]. cbn [app] in H. exact (ranges_wf_later s e b H s' e' Hin).
+  - unfold last_end. rewrite last_cons_ne by discriminate. apply (IH b (ranges_wf_tail _ _ H) ltac:(discriminate) s' e' Hin).
+Qed.
+Lemma last_in {A} (l : list A) d : l <> [] -> In (last l d) l.
+Proof.
+  induction l as [|x t IH]; [congruence|]. intros _. destruct t as [|y t']; [left; reflexivity|].
+  right. change (last (x :: y :: t') d) with (last (y :: t') d). apply IH. discriminate.
+Qed.
+Lemma last_map_new_start infos d0 : infos <> [] -> r_start (last (map new_region infos) (new_region d0)) = d_start (last infos d0).
+Proof.
+  induction infos as [|d t IH]; [congruence|]. intros _. destruct t as [|d2 t2]; [reflexivity|].
+  change (map new_region (d :: d2 :: t2)) with (new_region d :: map new_region (d2 :: t2)).
+  rewrite (last_cons_ne (new_region d)) by discriminate. rewrite (last_cons_ne d) by discriminate. apply IH. discriminate.
+Qed.
+
+Lemma phase2_covers_any cs0 nl : (nl = true -> pd_leaders pd) -> pd_no_junk pd -> forall fuel t c un m m' c' t',
+  ranges_wf un -> minv cs0 m ->
+  phase2 pd budget batch_limit fuel t c un m nl = (Ok m', c', t') ->
+  minv cs0 m' /\ (forall x, In x (snd m) -> In x (snd m')) /\ forall k, in_ranges un k -> covered (snd m') k.
+Proof.
+  intros Hl Hjunk. induction fuel as [|f IH]; intros t c un m m' c' t' Hwf Hm.
+  - destruct un as [|r0 un']; cbn [phase2]; [|discriminate].
+    intros H; injection H as <- _ _. split; [exact Hm|]. split; [exact (fun x H => H)|]. intros k [s [e [[] _]]].
+  - destruct un as [|r0 un'] eqn:Eun; [cbn [phase2]; intros H; injection H as <- _ _; split; [exact Hm|]; split; [exact (fun x H => H)|]; intros k [s [e [[] _]]]|].
+    rewrite <- Eun in *. assert (Hne : un <> []) by (rewrite Eun; discriminate).
+    replace (phase2 pd budget batch_limit (S f) t c un m nl) with
+      (match batch_load_ranges pd budget (S f) t c (firstn (16 * batch_limit) un) batch_limit nl with
+       | (Err x, c1, t1) => (Err x, c1, t1)
+       | (Ok regs, c1, t1) =>
+           match rev regs with
+           | [] => (Err 5, c1, t1)
+           | lastr :: _ => phase2 pd budget batch_limit f t1 c1 (ranges_after_key un (r_end lastr)) (fold_left append_region regs m) nl
+           end
+       end) by (rewrite Eun; reflexivity).
+    set (sent := firstn (16 * batch_limit) un). set (rest := skipn (16 * batch_limit) un).
+    assert (Hsplit : un = sent ++ rest) by (symmetry; apply firstn_skipn).
+    destruct (batch_load_ranges pd budget (S f) t c sent batch_limit nl) as [[[regs|e] c1] t1] eqn:Eb; [|discriminate].
+    destruct sent as [|s0 sent'] eqn:Esent.
+    { (* nothing is sent only if batch_limit = 0: then nothing is loaded and the call fails *)
+      cbn [batch_load_ranges] in Eb. injection Eb as <- _ _. cbn [rev]. discriminate. }
+    rewrite <- Esent in *. assert (Hsne : sent <> []) by (rewrite Esent; discriminate).
+    destruct (batch_load_ranges_pd _ _ _ _ _ _ _ _ _ Hsne Hl Eb) as [t0 [infos [Hp [Hn [Hg Hregs]]]]].
+    destruct (rev regs) as [|lastr x] eqn:Er; [discriminate|].
+    set (d0 := mkDesc 0 [] [] 0 0 [] (0, 0) None).
+    destruct (rev_head_last regs lastr x (new_region d0) Er) as [Hlast _].
+    destruct (fold_append_inv cs0 regs m Hm) as [Hm1 Hout1].
+    assert (Hend : r_end lastr = d_end (last infos d0)) by (rewrite <- Hlast, Hregs; apply last_map_new; exact Hn).
+    assert (Hstart : r_start lastr = d_start (last infos d0)) by (rewrite <- Hlast, Hregs; apply last_map_new_start; exact Hn).
+    assert (Hlastin : In lastr regs) by (rewrite <- Hlast; apply last_in; intros E; rewrite E in Er; discriminate).
+    intros H. apply IH in H; [|apply ranges_after_key_wf; exact Hwf|exact Hm1].
+    destruct H as [H1 [H2 H3]]. split; [exact H1|]. split; [intros y Hy; apply H2, Hout1; left; exact Hy|].
+    assert (Hwfs : ranges_wf sent) by (apply (wf_prefix sent rest); rewrite <- Hsplit; exact Hwf).
+    assert (Hcovregs : forall k, covered regs k -> covered (snd m') k).
+    { intros k. apply covered_mono. intros y Hy. apply H2, Hout1. right; exact Hy. }
+    intros k Hk. rewrite Hsplit in Hk. apply in_ranges_app in Hk. destruct Hk as [Hk|Hk].
+    + assert (Hkun : in_ranges un k) by (rewrite Hsplit; apply in_ranges_app; left; exact Hk).
+      destruct (regions_have_gap_sound sent infos batch_limit Hwfs Hg k Hk) as [Hc|[_ Hc]].
+      * apply Hcovregs. rewrite Hregs. apply covered_map_new. exact Hc.
+      * specialize (Hc d0). destruct Hc as [Hc1 Hc2]. apply H3. apply ranges_after_key_keeps; [exact Hwf|rewrite Hend; exact Hc1|exact Hkun|rewrite Hend; exact Hc2].
+    + (* a range that was not sent: it lies at or after the end of the last sent range, where the last returned region starts before *)
+      assert (Hkun : in_ranges un k) by (rewrite Hsplit; apply in_ranges_app; right; exact Hk).
+      destruct Hk as [s' [e' [Hin [Hk1 Hk2]]]].
+      destruct (wf_split_order sent rest ltac:(rewrite <- Hsplit; exact Hwf) Hsne s' e' Hin) as [He1 He2].
+      destruct (Hjunk t0 sent batch_limit infos Hp (last infos d0) (last_in infos d0 Hn)) as [Hj|Hj]; [congruence|].
+      destruct (is_nil (r_end lastr)) eqn:Enil.
+      * apply is_nil_true in Enil. apply Hcovregs. exists lastr. split; [exact Hlastin|]. apply r_contains_spec. split; [|left; exact Enil].
+        rewrite Hstart. apply ltb_leb. eapply ltb_leb_trans; [exact Hj|]. eapply leb_trans; [exact He2|exact Hk1].
+      * apply is_nil_false in Enil. destruct (lex_ltb k (r_end lastr)) eqn:Ek.
+        -- apply Hcovregs. exists lastr. split; [exact Hlastin|]. apply r_contains_spec. split; [|right; exact Ek].
+           rewrite Hstart. apply ltb_leb. eapply ltb_leb_trans; [exact Hj|]. eapply leb_trans; [exact He2|exact Hk1].
+        -- apply ltb_false_leb in Ek. apply H3. apply ranges_after_key_keeps; [exact Hwf|exact Enil|exact Hkun|exact Ek].
+Qed.
+
+(* BatchLocateKeyRanges with ANY number of ranges (PD returns no region beyond the ranges asked) *)
+Lemma batch_locate_covers_any fuel t c rs nl locs c' t' :
+  sorted_starts (c_sorted c) -> ranges_wf rs -> (nl = true -> pd_leaders pd) -> pd_no_junk pd ->
+  batch_locate pd budget batch_limit fuel t c rs nl = (Ok locs, c', t') ->
+  forall k, in_ranges rs k -> covered locs k.
+Proof.
+  intros Hs Hwf Hl Hj. unfold batch_locate.
+  destruct (phase1 batch_limit c rs None [] []) as [cs un] eqn:E1.
+  destruct (phase1_spec c batch_limit Hs rs None [] [] cs un Hwf ltac:(constructor) ltac:(intros x []) ltac:(intros x s e []) ltac:(intros l H; discriminate) E1)
+    as [Hcs [_ [un_new [Hun [Href Hcov]]]]]. cbn [app] in Hun. subst un_new.
+  assert (H0 : minv cs (None, cs, [])).
+  { split; [exact Hcs|]. split; [|exact I]. intros x k Hx Hk. right. exists x. split; assumption. }
+  destruct (phase2 pd budget batch_limit fuel t c un (None, cs, []) nl) as [[[m|e] c1] t1] eqn:E2; [|discriminate].
+  intros H; injection H as <- _ _.
+  destruct (phase2_covers_any cs nl Hl Hj fuel t c un _ m c1 t1 (refines_wf _ _ Href Hwf) H0 E2) as [Hm [_ Hc]].
+  intros k Hk. apply (merger_build_covers cs); [exact Hm|].
+  destruct (Hcov k Hk) as [[x [Hx Hxk]]|Hu]; [right; exists x; split; assumption|left; apply Hc; exact Hu].
 Qed.
 
 (* BatchLocateKeyRanges: the merged locations cover every requested range *)
